@@ -1913,6 +1913,14 @@ def deep_clone(v):
         return a
     if isinstance(v, Enum):
         return Enum(v.variant, v.idx, [deep_clone(x) for x in v.fields])
+    if isinstance(v, MapObj):
+        return MapObj([(deep_clone(k), deep_clone(c.v)) for k, c in v.entries])
+    if isinstance(v, StringObj):
+        return StringObj(list(v.chars))
+    if isinstance(v, HashObj):
+        h = HashObj()
+        h.entries = [[deep_clone(k), Cell(deep_clone(c.v))] for k, c in v.entries]
+        return h
     return v
 
 
@@ -2100,6 +2108,22 @@ def m_vec_truncate(it, callee, args, m):
     return ()
 
 
+def m_vec_split_off(it, callee, args, m):
+    """Vec::split_off(at): panics beyond len; the index is concretised by forking"""
+    v = deref(args[0])
+    n = len(v.elems)
+    inb = z3.ULE(args[1].t, z3.BitVecVal(n, 64))
+    ok, model = it.ctx.valid(inb)
+    if not ok:
+        it.panics.append(("split_off index out of bounds", "Vec::split_off", model))
+        if not it.ctx.branch(inb):
+            raise PathEnd()
+    k = it.ctx.choose(args[1].t, list(range(n + 1)))
+    tail = VecObj([c.v for c in v.elems[k:]])
+    v.elems = v.elems[:k]
+    return tail
+
+
 def m_vec_insert(it, callee, args, m):
     """Vec::insert(index, value): index concretised by forking (panics beyond len)"""
     v = deref(args[0])
@@ -2148,6 +2172,10 @@ def m_vec_resize(it, callee, args, m):
 
 IT = r"(?:<.* as (?:Iterator|DoubleEndedIterator|ExactSizeIterator|IntoIterator)>|Iterator|DoubleEndedIterator)"
 MODELS = [
+    (r"^<(std::option::)?Option<.*> as Default>::default$", lambda it, c, a, m: NONE()),
+    (r"^<bool as Default>::default$", lambda it, c, a, m: z3.BoolVal(False)),
+    (r"^<(u8|u16|u32|u64|usize) as Default>::default$", lambda it, c, a, m: Int(0, {"u8": 8, "u16": 16, "u32": 32}.get(m.group(1), 64), False)),
+    (r"^Vec::<.*>::split_off$", m_vec_split_off),
     (r"^Result::<.*>::is_ok$", lambda it, c, a, m: z3.BoolVal(deref(a[0]).variant == "Ok")),
     (r"^Result::<.*>::is_err$", lambda it, c, a, m: z3.BoolVal(deref(a[0]).variant == "Err")),
     (r"^Vec::<.*>::insert$", m_vec_insert),
@@ -2306,7 +2334,7 @@ MODELS = [
     (r"^Box::<\[.*; \d+\]>::new_uninit$", m_box_new_uninit),
     (r"^(std::boxed::)?box_assume_init_into_vec_unsafe::<", m_box_into_vec),
     (r"^core::str::<impl str>::chars$", m_str_chars),
-    (IT + r"::collect::<SmallVec<", m_collect_smallvec),
+    (IT + r"::collect::<(smallvec::)?SmallVec<", m_collect_smallvec),
     (r"^SmallVec::<.*>::(new|default)$|^<SmallVec<.*> as Default>::default$", m_vec_new),
     (r"^SmallVec::<.*>::push$", m_vec_push),
     (r"^SmallVec::<.*>::len$", m_vec_len),
@@ -2314,6 +2342,7 @@ MODELS = [
     (r"^<SmallVec<.*> as Deref(Mut)?>::deref(_mut)?$|^SmallVec::<.*>::as_slice$", m_vec_deref),
     (r"^<&SmallVec<.*> as IntoIterator>::into_iter$", lambda it, c, a, m: SeqIter(slice_refs(as_slice(a[0])))),
     (r"^(Rc|Arc)::<.*>::new$", m_rc_new),
+    (r"^<.* as Into<(Rc|Arc)<.*>>>::into$|^<(Rc|Arc)<.*> as From<.*>>::from$", m_rc_new),
     (r"^Box::<.*>::new$", m_box_new),
     (r"^<(Rc|Arc)<.*> as Clone>::clone$", m_identity),
     (r"^<.* as Fn(Mut|Once)?<\(.*\)>>::call(_mut|_once)?$", m_fn_call),
